@@ -1073,6 +1073,11 @@ func init() {
 		return p
 	}
 
+	// ---- math/rand (top-level functions): jitter only in the code under test; always the lowest value
+	reg([]string{"math/rand.Intn", "math/rand.Int63n", "math/rand.Int31n", "math/rand.Int", "math/rand.Int63", "math/rand.Int31", "math/rand.Uint32", "math/rand.Uint64"}, func(fr *frame, args []value) value {
+		return zero(fr.fn.Signature.Results().At(0).Type())
+	})
+
 	// ---- reflect: not modelled; TypeOf yields a nil Type (net/http's initialiser only stores two of
 	// them to recognise in-memory readers, which then simply are not recognised)
 	natives["reflect.TypeOf"] = func(fr *frame, args []value) value { return iface{} }
